@@ -78,12 +78,12 @@ class Multiplication:
       if copy_names is None:
         copy_names = self._compute_copy_names(sn, factor)
       for cn in copy_names:
-        self.__clone_segment_and_connections(s, cn)
+        self.__clone_segment_and_connections(s, cn, copy_names)
       if distribute:
         self._distribute_links(distribute, sn, copy_names, factor)
       return self
 
-  def _compute_copy_names(self, segment_name, factor):
+  def _compute_copy_names(self, segment_name, factor, reserved = ()):
     assert factor >= 2
     retval = []
     first = 2
@@ -94,7 +94,8 @@ class Multiplication:
     offset = 0
     for i in range(first,factor+first-1):
       name = "{}*{}".format(segment_name, i+offset)
-      while name in self.names or self.line(name) is not None:
+      while name in self.names or self.line(name) is not None or \
+          name in reserved:
         # (also a name which is so far only referred to is in use)
         offset+=1
         name = "{}*{}".format(segment_name, i+offset)
@@ -118,7 +119,8 @@ class Multiplication:
       else:
         self.__divide_counts(l, factor)
 
-  def __clone_segment_and_connections(self, segment, clone_name):
+  def __clone_segment_and_connections(self, segment, clone_name,
+                                      reserved = ()):
     cpy = segment.clone()
     cpy.name = clone_name
     cpy.connect(self)
@@ -131,7 +133,8 @@ class Multiplication:
       lc = l.clone()
       if not gfapy.is_placeholder(lc.name):
         # the copy of a named edge needs a name of its own
-        lc.name = self._compute_copy_names(lc.name, 2)[0]
+        # (not one of those which the copies of the segment will take)
+        lc.name = self._compute_copy_names(lc.name, 2, reserved)[0]
       if lc.from_segment == segment.name:
         lc.from_segment = clone_name
       if lc.to_segment == segment.name:
